@@ -890,6 +890,7 @@ def _pure_self_methods(tree: ast.Module) -> set:
 
 
 _REPO_CALLS: dict = {"sites": {}, "bare": set()}
+_REPO_STRUCTS: dict = {}          # whole package: module-level struct.Struct constant name -> format
 _REPO_OBSERVATIONAL: set = set()  # whole package: attribute names nothing reads except to report them (effects.observational_attrs_of)
 _REPO_WRITES: dict = {}          # whole package: function/method name -> set of attribute names it may store (transitively, by name), or None = anything
 
@@ -958,6 +959,17 @@ def _repo_effects(pkg_dir: str, root: str, overlay) -> None:
             elif isinstance(x, ast.Name) and isinstance(x.ctx, ast.Load) and x.id in funcnames:
                 bare.add(x.id)
     _REPO_CALLS = {"sites": sites, "bare": bare}
+    # module-level NAME = struct.Struct("<literal>") anywhere in the package (a name defined once): a module that imports such a
+    # name gets the definition put in front, so that inline_fresh_structs treats it like a local one
+    global _REPO_STRUCTS
+    st_defs = {}
+    for t in trees:
+        for st in t.body:
+            if isinstance(st, ast.Assign) and len(st.targets) == 1 and isinstance(st.targets[0], ast.Name) and isinstance(st.value, ast.Call) \
+                    and ast.unparse(st.value.func) in ("struct.Struct", "Struct") and len(st.value.args) == 1 and isinstance(st.value.args[0], ast.Constant) \
+                    and isinstance(st.value.args[0].value, str):
+                st_defs.setdefault(st.targets[0].id, set()).add(st.value.args[0].value)
+    _REPO_STRUCTS = {k: next(iter(v)) for k, v in st_defs.items() if len(v) == 1}
     global _REPO_OBSERVATIONAL
     from .effects import observational_attrs_of
     _REPO_OBSERVATIONAL = observational_attrs_of(trees)
@@ -1206,7 +1218,7 @@ def _impure_calls(e: ast.AST):
 
 _PURE_METHODS = {"tobytes", "ljust", "rjust", "decode", "encode", "hex", "upper", "lower", "strip", "rstrip", "lstrip", "replace", "startswith", "endswith",
                  "to_bytes", "get", "items", "keys", "values", "bit_length", "islower", "isupper", "pack", "unpack", "unpack_from", "format", "join", "split",
-                 "index", "count", "find", "copy", "group", "match", "search", "sub", "has_section", "has_option", "options", "sections", "isdigit", "indices",
+                 "index", "count", "find", "copy", "group", "match", "search", "sub", "has_section", "has_option", "options", "sections", "isdigit", "indices", "qsize", "empty", "full",
                  # codec methods of ODVariable (canopen/objectdictionary/__init__.py): they store nothing
                  "encode_raw", "decode_raw", "encode_phys", "decode_phys", "encode_desc", "decode_desc", "encode_bits", "decode_bits"}
 
@@ -2087,6 +2099,16 @@ def _all_local(fn: ast.FunctionDef, t: str) -> bool:
     return True
 
 
+_QUERY_METHODS = {"qsize", "empty", "full", "keys", "values", "items", "count", "index", "copy", "hex", "bit_length", "is_set", "is_alive"}
+
+
+def _only_queries(e: ast.expr) -> bool:
+    """Every call in e is a side-effect-free query method of the built-in containers / queue / threading objects, whatever the
+    receiver (`self.responses.qsize()`): an unused result of such an expression can be dropped."""
+    calls = [c for c in ast.walk(e) if isinstance(c, ast.Call)]
+    return bool(calls) and all(isinstance(c.func, ast.Attribute) and c.func.attr in _QUERY_METHODS and not c.args and not c.keywords for c in calls)
+
+
 def _inline_fresh_temps(fn: ast.FunctionDef, known: set, multi: bool = True) -> None:
     """A local that the reference tree does not have, assigned once and read once in a later statement of the same block,
     is replaced by its expression (the inverse of "extract variable").  Applied only to names absent from the recorded
@@ -2109,7 +2131,7 @@ def _inline_fresh_temps(fn: ast.FunctionDef, known: set, multi: bool = True) -> 
             for i, st in enumerate(blk):
                 # a fresh local that nobody reads, computed without calling anything: the assignment goes
                 if isinstance(st, ast.Assign) and len(st.targets) == 1 and isinstance(st.targets[0], ast.Name) and st.targets[0].id not in known \
-                        and st.targets[0].id not in params and st.targets[0].id not in loads and not _harmful_calls(st.value) and len(blk) > 1 \
+                        and st.targets[0].id not in params and st.targets[0].id not in loads and (not _harmful_calls(st.value) or _only_queries(st.value)) and len(blk) > 1 \
                         and not any(isinstance(x, (ast.NamedExpr, ast.Await, ast.Yield, ast.YieldFrom)) for x in ast.walk(st.value)):
                     del blk[i]
                     changed = True
@@ -2302,6 +2324,20 @@ def _load_reference():
     return _REFERENCE
 
 
+_REF_NAMES_CACHE = {}
+
+
+def _load_reference_names() -> set:
+    """Module-level constant names of the whole reference package (a struct constant the pinned tree already has, e.g. SDO_STRUCT,
+    is not fresh in any module that imports it)."""
+    if "v" not in _REF_NAMES_CACHE:
+        out = set()
+        for m_ in _load_reference().values():
+            out |= set(m_.get("consts", []))
+        _REF_NAMES_CACHE["v"] = out
+    return _REF_NAMES_CACHE["v"]
+
+
 def canonicalise(tree: ast.Module, rel: str = "") -> ast.Module:
     tree = _Canonical().visit(tree)
     off = os.environ.get("VERIF_NO_RENAME") == "1"
@@ -2309,6 +2345,18 @@ def canonicalise(tree: ast.Module, rel: str = "") -> ast.Module:
     ref = _load_reference().get(rel) if not off else None
     if ref is not None:
         from . import canon
+        # struct constants of another module of the package, imported here (by name or by *)
+        local_defs = {t.id for st in tree.body if isinstance(st, (ast.Assign, ast.AnnAssign)) for t in (st.targets if isinstance(st, ast.Assign) else [st.target]) if isinstance(t, ast.Name)}
+        imported = {a.asname or a.name for st in tree.body if isinstance(st, ast.ImportFrom) for a in st.names}
+        used = {x.id for x in ast.walk(tree) if isinstance(x, ast.Name) and isinstance(x.ctx, ast.Load)}
+        has_struct = any(isinstance(st, ast.Import) and any((a.asname or a.name) == "struct" for a in st.names) for st in tree.body) or "*" in imported
+        for nm_, fmt_ in sorted(_REPO_STRUCTS.items()):
+            if nm_ in used and nm_ not in local_defs and nm_ not in set(ref.get("consts", [])) and has_struct and (nm_ in imported or "*" in imported) \
+                    and nm_ not in _load_reference_names():
+                k_ = next((i for i, st in enumerate(tree.body) if not isinstance(st, (ast.Import, ast.ImportFrom)) and not (isinstance(st, ast.Expr) and isinstance(st.value, ast.Constant))), len(tree.body))
+                tree.body.insert(k_, ast.Assign(targets=[ast.Name(id=nm_, ctx=ast.Store())], value=ast.Call(func=ast.Attribute(value=ast.Name(id="struct", ctx=ast.Load()), attr="Struct", ctx=ast.Load()),
+                                                                                                   args=[ast.Constant(value=fmt_)], keywords=[])))
+        ast.fix_missing_locations(tree)
         canon.inline_fresh_structs(tree, ref)
         canon.inline_fresh_regexes(tree, ref)
         for _k in range(3):
